@@ -11,8 +11,8 @@ use std::collections::BTreeSet;
 use txtpp::verif::api::{Directive, DirectiveType};
 use txtpp::Mode;
 
-pub const TOK: [&str; 16] =
-    [" ", "\t", "-", "//", "TXTPP#", "TXTPP", "#", "include", "after", "run", "temp", "tag", "write", "writex", "x", "\u{e9}"];
+pub const TOK: [&str; 18] =
+    [" ", "\t", "-", "//", "TXTPP#", "TXTPP", "#", "include", "after", "run", "temp", "tag", "write", "writex", "x", "\u{e9}", "RUN", "txtpp#"];
 pub const CTOK: [&str; 8] = [" ", "\t", "-", "//", "x", "\u{e9}", "TXTPP#", "// "];
 
 fn std_cmd_or_fail(c: &str, _d: &str, _l: &dyn Fn(&str) -> Option<Vec<u8>>) -> Result<String, String> {
